@@ -89,8 +89,10 @@ def context(f, info):
         flags.append('disk')
     if any(vd == () for vd, _ in info.vars.values()):
         flags.append('scalarvar')
-    if not info.numeric:
+    if any(k in 'SU' for _, k in info.vars.values()):
         flags.append('charvar')
+    elif not info.numeric:
+        flags.append('nonnumericvar')   # e.g. bool results of comparisons
     try:
         if any(k not in info.vars for k in f.getCoords()):
             flags.append('coordsmissing')
@@ -304,29 +306,14 @@ def _has_step(journal, op):
                for s in journal.get('steps', []))
 
 
-known.register('C01-reorder-dims', lambda spec, f: (
-    f.klass.startswith('reorder:') and (
-        (f.clause == 'in-domain-raised' and f.where in (
-            'AssertionError@core/_files.py:reorderDimensions',
-            'AttributeError@core/_files.py:reorderDimensions')) or
-        (f.clause == 'malformed' and 'ncattrs' in f.detail and
-         '/live' not in f.klass))))
-
-known.register('C01-coords-missing', lambda spec, f: (
-    f.clause == 'in-domain-raised' and
-    f.where == 'KeyError@core/_files.py:subsetVariables' and
-    f.klass.split(':')[0] in ('subset', 'eval') and
-    'coordsmissing' in _ctx(f)))
-
-known.register('C01-rmsing-char', lambda spec, f: (
-    f.clause == 'in-domain-raised' and
-    f.where == 'TypeError@core/_files.py:removeSingleton' and
-    f.klass.startswith('rmsing:') and 'charvar' in _ctx(f)))
-
-known.register('C01-ioapi-slice-rowcol', lambda spec, f: (
-    f.clause == 'malformed' and f.klass == 'slice:ioapi/degraded' and
-    'degraded' in _ctx(f) and 'uses dimensions' in f.detail and
-    ("['COL']" in f.detail or "['ROW']" in f.detail)))
+# fixed since this check was written (regressions pinned as
+# replays/C01/fixed-*.json): reorder-dims a78683a, coords-missing ebd8f12,
+# rmsing-char 39f156d, ioapi-slice-rowcol 1c3f9f7, eval-masked-scalar 1965be0
+known.register('C01-char-empty-scalar', lambda spec, f: (
+    f.clause == 'in-domain-raised' and 'charvar' in _ctx(f) and
+    f.where in ('ValueError@core/_files.py:sliceDimensions',
+                'ValueError@core/_files.py:removeSingleton') and
+    'maximum number of dimension of 0' in f.detail))
 
 known.register('C01-ioapi-var-redim', lambda spec, f: (
     f.clause == 'malformed' and 'baddims=VAR ' in f.detail and
